@@ -279,13 +279,16 @@ class Session:
         async def go():
             first = [mk_msg(d) for d in rng.sample([3, 1, 2, 0.5], 3)]
             for name in first:
-                await sender.emit(name, {'n': name}, callback=cb_for(name),
-                                  **kw)
+                # (byte strings inside: the receiver reassembles a binary
+                # packet while the handlers of earlier ones are still running)
+                await sender.emit(name, {'n': name, 'b': [b'\x00', b'xy']},
+                                  callback=cb_for(name), **kw)
             await asyncio.sleep(rng.choice([0.7, 1.5, 2.5]))
             late = [mk_msg(d) for d in (1, 0.2)]
             for name in late:
-                await sender.emit(name, {'n': name}, callback=cb_for(name),
-                                  **kw)
+                await sender.emit(name, {'n': name} if name == late[0] else
+                                  {'n': name, 'b': b'z'},
+                                  callback=cb_for(name), **kw)
         self.history.append({'overlap': direction, 'ns': ns})
         try:
             b.run(go(), horizon=50.0)
